@@ -131,6 +131,38 @@ def _whole_line(R, jf):
         R.ok(rid, "JoinedTableData::execute|line", "line text reaches execute unmodified (%d read source(s), %d buffer(s))" % (src, len(buffers)), c.loc())
 
 
+def _range_over_names(cm, nxt, addc):
+    """the loop is `for i in 0..<len of a Vec<String> field of JoinedTableData>` and the key added is `<such a field>[i]`"""
+    rng = None
+    for o in F.origins(cm, nxt.args[0], depth=8):
+        if o.kind == "aggr" or (o.kind == "call" and short(o.call.name).endswith("into_iter")):
+            rng = o
+    # bounds: an aggregate Range { start: 0, end: len(..) }
+    lo_ok = hi_ok = False
+    for i_, st in cm.stmts():
+        if st["k"] == "assign" and st["rv"]["k"] == "aggr" and "Range" in str(st["rv"].get("adt") or st["rv"].get("variant") or st["rv"].get("name") or "") \
+                and len(st["rv"]["ops"]) == 2:
+            a, b = st["rv"]["ops"]
+            lo_ok = a.get("k") == "const" and str(a.get("val", a.get("v", ""))).startswith("0")
+            for o in F.origins(cm, b, depth=6):
+                if o.kind == "call" and short(o.call.name) == "alloc::vec::Vec::len":
+                    fl = F.source_fields(cm, o.call.args[0], depth=8)
+                    if fl and fl[-1] in ("column_names", "fully_qualified_column_names"):
+                        hi_ok = True
+    if not (lo_ok and hi_ok):
+        return False
+    idx = [o.call for a_ in addc.args[1:] for o in F.origins(cm, a_, depth=12) if o.kind == "call" and short(o.call.name).endswith("Index<I>>::index")]
+    if not idx:
+        return False
+    for ic in idx:
+        os_ = F.origins(cm, ic.args[1], depth=8, through_calls=False)
+        if not os_ or any(o.kind in ("binop", "unop", "const", "cast") for o in os_):
+            return False
+        if not any(o.kind == "call" and o.call is nxt for o in os_):
+            return False
+    return True
+
+
 def run(R):
     P = R.prog
     from . import rules_c16
@@ -231,6 +263,25 @@ def run(R):
     extra = [w for w in who if w != ENGX + "execute_joined_table" and w in PR.pinned_fns()]
     if extra:
         R.violation("C05.eager", "load|other-caller", "JoinedTableData::execute is also called from %s" % extra, [jload.loc()])
+    # ... and every executor loads it before, and on every path to, its first input line
+    from . import rules_exec_loops as L
+    for name in (L.FILE_EXEC,):      # (following a file rejects joins: JoinNotSupported)
+        xf = L.exec_view(R, name)
+        sn = "::".join(xf.spath.split("::")[-2:])
+        jcs_ = L.calls_reaching(xf, r"ExecutionEngine::execute_joined_table$")
+        lps = [l for l in L.input_loops(xf) if l.ok]
+        if not jcs_:
+            R.violation("C05.eager", sn + "|no-load", "%s no longer loads the joined table" % xf.path, [xf.loc()])
+            continue
+        inloop = [c for c in jcs_ if any(c.bb in l.body for l in lps)]
+        good = any(PR.all_paths_hit(xf, 0, [c.bb])[0] for c in jcs_ if c not in inloop) or \
+            any(all(xf.dominates(c.bb, l.header) for l in lps) for c in jcs_ if c not in inloop)
+        if inloop or not good:
+            R.violation("C05.eager", sn + "|lazy-load", "%s loads the joined table %s: with an input that has no line a missing joined file / "
+                        "table / column is not reported" % (xf.path, "inside its input loop" if inloop else "on some paths only"),
+                        [(inloop or jcs_)[0].loc()])
+        else:
+            R.ok("C05.eager", sn + "|load-first", "execute_joined_table dominates the input loops", jcs_[0].loc())
     # the queried side's join column is resolved (and its absence reported) on every path of the lookup: no fast path returns before it
     gj = R.need_fn(J + "JoinedTableData::get_joined_row")
     ix = [c for c in gj.calls if short(c.name).endswith("TableDefinition::index_for")]
@@ -290,7 +341,8 @@ def run(R):
     else:
         g = PR.discr_guard(ej, nxt[0], "Some")
         hdr, body = PR.loop_of(ej, nxt[0].bb)
-        ex = [c for c in ej.calls if c.bb in body and (c.func.get("trait") or "").startswith("core::ops::function::Fn")]
+        ex = [c for c in ej.calls if c.bb in body and (c.func.get("trait") or "").startswith("core::ops::function::Fn") and
+              "{closure" not in (c.args[0].get("ty") or "" if c.args else "")]      # (a local helper closure is not the `execute` callback)
         # consumers of the pair's result: calls in the loop body that receive the value returned by the execute call
         mg = []
         if len(ex) == 1:
@@ -377,8 +429,10 @@ def run(R):
                 okstar = False
                 why = "add_key outside a loop or before the queried table's keys"
                 break
-            nxt = [x for x in cm.calls if x.bb in lp[1] and short(x.name).endswith("Iterator>::next")]
+            nxt = [x for x in cm.calls if x.bb in lp[1] and re.search(r"Iterator>::next$|Iterator for core::ops::range::Range<A>>::next$", short(x.name))]
             ts = " ".join((nxt[0].func.get("res_targs") or nxt[0].targs)) if nxt else ""
+            if nxt and "ops::range::Range<" in short(nxt[0].name) and _range_over_names(cm, nxt[0], c):
+                continue        # `for i in 0..names.len()` with the key taken from names[i]: the same order
             if not nxt or "hash::" in ts or "hash::" in short(nxt[0].name) or "btree" in short(nxt[0].name) or "alloc::string::String" not in ts:
                 okstar = False
                 why = "the joined keys are added while iterating %s" % (ts or "?")
@@ -390,7 +444,7 @@ def run(R):
         # per joined column exactly one key
         if okstar:
             lp = PR.loop_of(cm, addk[0].bb)
-            nxt = [x for x in cm.calls if x.bb in lp[1] and short(x.name).endswith("Iterator>::next")][0]
+            nxt = [x for x in cm.calls if x.bb in lp[1] and re.search(r"Iterator>::next$|Iterator for core::ops::range::Range<A>>::next$", short(x.name))][0]
             g5 = PR.discr_guard(cm, nxt, "Some")
             r5 = count_range(cm, g5[1], {lp[0]}, {c.bb for c in addk}) if g5 else None
             if r5 != (1, 1):
